@@ -730,9 +730,16 @@ def flatten_path(path, flatten_slashes=False):
     new_parts = collections.deque()
 
     for part in parts:
-        if part == '.' or (flatten_slashes and not part):
+        # '.' is an unreserved character: '%2E' is the same as '.'
+        # (RFC 3986 section 6.2.2.2) and '%2e%2E' a dot segment like '..'
+        plain_part = part
+
+        if '%2' in part:
+            plain_part = part.replace('%2E', '.').replace('%2e', '.')
+
+        if plain_part == '.' or (flatten_slashes and not part):
             continue
-        elif part != '..':
+        elif plain_part != '..':
             new_parts.append(part)
         elif new_parts:
             new_parts.pop()
@@ -740,7 +747,7 @@ def flatten_path(path, flatten_slashes=False):
     # If the filename is empty string. A trailing dot segment names a
     # directory: '/a/b/..' is '/a/', not '/a'.
     if flatten_slashes and path.endswith('/') or not len(new_parts) \
-            or parts[-1] in ('.', '..'):
+            or plain_part in ('.', '..'):
         new_parts.append('')
 
     # Put back leading slash
